@@ -49,12 +49,17 @@ def body_runs(n, var):
 def item_arms(tree, path, method):
     f = tree.fn(path) if method is None else tree.one_method(path, method)
     out = {}
+    prefix = f["path"].rsplit("::", 1)[0].split("<")[0]
+    if not prefix.endswith("::"):
+        prefix = (prefix + "::") if prefix else ""
     for n in A.walk(f["body"]):
         if n.get("e") == "match":
             for arm in n["arms"]:
                 p = arm["pat"]
                 if p.get("p") in ("tstruct", "struct") and p["v"].startswith("Item::"):
-                    out.setdefault(p["v"].split("::")[1], arm)
+                    # an arm that only calls a local helper is read through the helper
+                    arm2 = dict(arm, body=A.delegated_body(tree, arm["body"], prefix))
+                    out.setdefault(p["v"].split("::")[1], arm2)
     return f, out
 
 
